@@ -67,7 +67,12 @@ impl Prop for C05 {
         let large = graph_strategy(&ALL_KINDS, 21, 30, edges_large, &[0, 1, 3], 3);
         let boundary = boundary_graph_strategy(&ALL_KINDS, edges_large, &[0, 1, 3], 3, 255);
         let big = big_graph_strategy(&[0, 1], 300, 3000, &[0, 1]);
-        prop_oneof![8000 => small, 400 => mid, 200 => large, 20 => boundary, 1 => big].boxed()
+        // layered graphs (3 nodes per layer, complete between consecutive layers): 3^(n/3) shortest
+        // paths between the ends, beyond 2^64 from 123 nodes on
+        let layered = (proptest::sample::select(&[0u8, 1][..]), 90u8..=255, any::<u32>(), proptest::sample::select(&[0u8, 3][..]))
+            .prop_map(|(kind, n, perm, wmode)| GraphCase { kind, n, perm, shape: 9, edges: vec![], wmode, big_n: 0, big_seed: 0 })
+            .boxed();
+        prop_oneof![8000 => small, 400 => mid, 200 => large, 20 => boundary, 1 => big, 3 => layered].boxed()
     }
     fn random_cases(&self, tier: Tier) -> u32 {
         tier.pick(150_000, 1_500_000)
@@ -123,6 +128,9 @@ impl Prop for C05 {
         out.class(if n > 260 { "large_graph_300_to_3000_nodes" } else if n <= 8 { "n<=8_bruteforce" } else if n <= 20 { "n_9_to_20" } else if n <= 30 { "n>20_parallel_path" } else { "boundary_size_31_to_255" });
         if n <= 2 {
             out.class("n<=2");
+        }
+        if case.shape == 9 && n >= 123 {
+            out.class("more_than_2^64_shortest_paths");
         }
         out.nontrivial = any_tie && any_nonzero;
         out
